@@ -444,8 +444,16 @@ func c21Deadline(p *an.Prog, r *an.R) {
 					if callee := x.Call.StaticCallee(); callee != nil && callee.Pkg != nil {
 						name := callee.Pkg.Pkg.Path() + "." + callee.Name()
 						if sinks[name] {
-							sites = append(sites, site{an.SSAName(f), x.Pos()})
+							sites = append(sites, site{an.SSAName(x.Parent()), x.Pos()})
 							continue
+						}
+						// handed to a function of the module: goes on as that function's parameter
+						if len(callee.Blocks) > 0 && strings.HasPrefix(callee.Pkg.Pkg.Path(), an.Mod) {
+							for i, a := range x.Call.Args {
+								if a == v && i < len(callee.Params) {
+									follow(callee.Params[i], depth+1)
+								}
+							}
 						}
 						// time.Now().Add(d), d.Round(..), min(d, ..): the value goes on
 						if callee.Pkg.Pkg.Path() == "time" {
@@ -503,6 +511,14 @@ func c21Deadline(p *an.Prog, r *an.R) {
 		})
 	}
 	sort.Slice(sites, func(i, j int) bool { return sites[i].pos < sites[j].pos })
+	// one sink reached along several call paths is one site
+	uniq := sites[:0]
+	for i, st := range sites {
+		if i == 0 || st.pos != sites[i-1].pos {
+			uniq = append(uniq, st)
+		}
+	}
+	sites = uniq
 	key := "search+index/deadline-derived-from-MaxWallTime/single-site"
 	switch {
 	case len(sites) == 0:
